@@ -29,15 +29,17 @@ Proof.
   change (nltb x x0) with (Rltb x x0). destruct (Rltb x x0); [reflexivity|]. apply interp_go_shift.
 Qed.
 
-(* every section inside the surface sees the input moved by the step, whatever form the input has *)
+(* every section inside the surface sees the input moved by the step, for a number and for a table (a function cannot be perturbed: the code
+   raises on function + float) *)
 Theorem input_at_shift (c : cinput R) d s :
-  (match c with CTable tbl => tbl <> [] | _ => True end) ->
+  (match c with CConst _ => True | CTable tbl => tbl <> [] | CFun _ => False end) ->
   input_at (shift_input c d) true s = input_at c true s + d.
 Proof.
-  destruct c as [v|tbl]; intros H; cbn [shift_input input_at].
+  destruct c as [v|tbl|f]; intros H; cbn [shift_input input_at].
   - reflexivity.
   - change (map (fun p : R * R => (@nadd R RNum (fst p) (@n0 R RNum), @nadd R RNum (snd p) d)) tbl) with (shift_tbl d tbl).
     apply interp_shift. exact H.
+  - destruct H.
 Qed.
 
 (* and the shifted table is accepted by the same surface *)
@@ -52,7 +54,7 @@ Proof. cbn [table_ends_ok]. rewrite (last_map fst). reflexivity. Qed.
 
 Theorem shift_keeps_ends (c : cinput R) d root tip : table_ends_ok root tip (shift_input c d) = table_ends_ok root tip c.
 Proof.
-  destruct c as [v|tbl]; [reflexivity|]. rewrite shift_input_table. destruct tbl as [|[x0 y0] r]; [reflexivity|].
+  destruct c as [v|tbl|f]; [reflexivity| |reflexivity]. rewrite shift_input_table. destruct tbl as [|[x0 y0] r]; [reflexivity|].
   change (shift_tbl d ((x0, y0) :: r)) with ((x0 + 0, y0 + d) :: shift_tbl d r).
   rewrite !ends_ok_fst. cbn [fst].
   change (map fst ((x0 + 0, y0 + d) :: shift_tbl d r)) with (map fst (shift_tbl d ((x0, y0) :: r))).
